@@ -294,14 +294,25 @@ func run(repo, prop, tier, verif, onlyKey, dump, controls string) int {
 		if b, err := os.ReadFile(controls); err == nil {
 			var cs []map[string]string
 			if json.Unmarshal(b, &cs) == nil {
-				ev.Coverage["positive_controls"] = cs
-				n := 0
+				var pos, neg []map[string]string
+				n, silent := 0, 0
 				for _, c := range cs {
+					if c["kind"] == "negative" {
+						neg = append(neg, c)
+						if c["status"] == "silent" {
+							silent++
+						}
+						continue
+					}
+					pos = append(pos, c)
 					if c["status"] == "reported" {
 						n++
 					}
 				}
+				ev.Coverage["positive_controls"] = pos
 				ev.Coverage["positive_controls_reported"] = n
+				ev.Coverage["negative_controls"] = neg
+				ev.Coverage["negative_controls_silent"] = silent
 			}
 		}
 	}
